@@ -22,7 +22,7 @@ var suitesByProp = map[string][]func(*runner, *rng){
 	"C15": {suiteLin},
 	"C01": {suiteSrt},
 	"C02": {suiteVtt},
-	"C04": {suiteSsa},
+	"C04": {suiteSsa, suiteSsaModel},
 	"C17": {suiteSchedules},
 	"C19": {suiteDeterminism},
 	"C08": {suiteTotality, suiteTeletextHostile},
